@@ -41,8 +41,10 @@ def load_catalog():
 def overlay_from_patch(patch, workdir):
     files = []
     for line in open(patch):
-        if line.startswith("+++ b/"):
-            files.append(line[6:].strip())
+        if line.startswith("+++ b/") or line.startswith("--- a/"):
+            f = line[6:].strip()
+            if f not in files:
+                files.append(f)
     d = tempfile.mkdtemp(prefix="zsp-", dir=workdir)
     try:
         for f in files:
@@ -54,7 +56,19 @@ def overlay_from_patch(patch, workdir):
         r = subprocess.run(["patch", "-p1", "-s", "-f", "--no-backup-if-mismatch", "-d", d, "-i", patch], capture_output=True, text=True)
         if r.returncode != 0:
             return None, "patch does not apply to the current tree"
-        return {os.path.join(REPO, f): open(os.path.join(d, f)).read() for f in files if os.path.exists(os.path.join(d, f))}, ""
+        ov = {}
+        for f in files:
+            if os.path.exists(os.path.join(d, f)):
+                ov[os.path.join(REPO, f)] = open(os.path.join(d, f)).read()
+            elif os.path.exists(os.path.join(REPO, f)) and f.endswith(".go"):
+                # deleted by the patch: an overlay cannot remove a file, an empty file of the same package is equivalent
+                pkg = "main"
+                for l in open(os.path.join(REPO, f)):
+                    if l.startswith("package "):
+                        pkg = l.split()[1]
+                        break
+                ov[os.path.join(REPO, f)] = "package %s\n" % pkg
+        return ov, ""
     finally:
         shutil.rmtree(d, ignore_errors=True)
 
